@@ -254,6 +254,43 @@ def rule_snapshots_are_copies(eng, rep, rule, sinks, what):
         rep.unknown(rule, what, "the snapshot does not originate from any live Model array at all -- anchor lost")
 
 
+def rule_eval_results_are_fresh(eng, rep, rule):
+    """T11: the buffers evaluate_objective returns are allocated by that very call.  Callers park results (the parallel initialisers keep a list of them) and read
+    them after further evaluations; a persistent workspace handed out again would make every parked result alias the last evaluation."""
+    fi = eng.fn(EVAL)
+    cfg = eng.cfg(fi)
+    pos = result_positions(eng)
+    n = 0
+    for node, d in cfg.g.nodes(data=True):
+        st = d["ast"]
+        if d["kind"] != "stmt" or not isinstance(st, ast.Return) or not isinstance(st.value, ast.Tuple):
+            continue
+        for i in (0, 1):
+            e = st.value.elts[i]
+            if not isinstance(e, ast.Name):
+                rep.unknown(rule, eng.where(fi, st), "returned buffer `%s` is not a local" % ekey(e))
+                continue
+            n += 1
+            bad = None
+            for dn in cfg.defs_reaching(e, e.id):
+                ds = cfg.ast_of(dn)
+                fresh = isinstance(ds, ast.Assign) and isinstance(ds.value, ast.Call) and ekey(ds.value.func).split(".")[-1] in ("zeros", "empty", "ones", "full", "zeros_like", "empty_like", "copy", "array")
+                weak = isinstance(ds, ast.Assign) and isinstance(ds.targets[0], (ast.Subscript, ast.Tuple))       # element stores into the buffer
+                if not (fresh or weak):
+                    bad = ds
+            if bad is None:
+                rep.ok(rule, eng.where(fi, st), "`%s` is allocated by this call on every path" % e.id)
+            else:
+                rep.bad(rule, eng.where(fi, bad) if bad is not None else eng.where(fi, st), "%s|returned-buffer-not-fresh|%s" % (fi.fid, e.id),
+                        "evaluate_objective can return `%s` as defined by `%s`, which is not a fresh allocation: results parked by a caller alias the next evaluation's buffer" % (e.id, short_(bad)))
+    rep.require_count(rule, "returned evaluation buffers", n, 2)
+
+
+def short_(node, n=60):
+    s_ = ekey(node).replace("\n", " ") if node is not None else "?"
+    return s_ if len(s_) <= n else s_[:n - 3] + "..."
+
+
 def rule_mean_over_samples_run(eng, rep, rule):
     """Every use of an evaluation buffer (zero-padded to the requested number of samples) in a mean / as an argument of another routine
     must be sliced to the number of samples actually run."""
